@@ -7,9 +7,13 @@ over the abstract slot list. The navigation getters of fast_ops.rs used by the l
 `get_last_p_for_var`) are modelled by scans of the slot list (justified by C11, re-checked by
 the C04 correspondence). Core Lean only; importable by other properties (C06/C07).
 
-Draw order (read from the source): nothing if `n = 0`; `gen_range(0..n)` (start op = the k-th
-occupied slot in increasing p), `gen_range(0..k_op)` (relative variable), `gen::<bool>()`
-(`true` → `OpSide::Inputs`); then one `gen_range(0.0..Σ exit weights)` per vertex visit.
+Draw order (read from the source, after the fix 7073632 of finding F22): nothing if `n = 0`;
+ONE draw `gen_range(0..Σ_ops k_op)` over the variable slots of all operators in chain order
+(first occupied p first; within an op the relative variables 0..k_op-1), giving (op position,
+relative variable) — every leg equally likely whatever the arity of its op —, then
+`gen::<bool>()` (`true` → `OpSide::Inputs`); then one `gen_range(0.0..Σ exit weights)` per vertex
+visit. (Before the fix: `gen_range(0..n)` for the op, then `gen_range(0..k_op)`; kept as
+`loopStartOld` for the counter-witness `old_start_rule_not_leg_uniform`.)
 
 Exit choice at a vertex (op with recorded (ins, outs), entrance leg `i`): for every leg `x` in
 the order inputs 0..k-1, outputs 0..k-1 the weight is `w(bond, (ins,outs) with i and x toggled)`
@@ -110,8 +114,34 @@ def varHasOps (slots : Slots) (v : Nat) : Bool := !(occV slots v).isEmpty
 
 /-! ### the update -/
 
-/-- start selection: `(position, leg)`; three draws -/
+/-- `total_vars`: number of variable slots of all ops (`while let Some(p) = next` loop) -/
+def totalVars : Slots → Nat
+  | [] => 0
+  | none :: t => totalVars t
+  | some op :: t => op.vars.length + totalVars t
+
+/-- the walk `if choice < n_vars {break (p, choice)}; choice -= n_vars; p = next_p.unwrap()` over
+the ops in chain order, `p` = position of the head of the remaining list; `none` = the walk ran
+off the end (`unwrap` panics; impossible for `choice < total_vars`). -/
+def pickLeg : Slots → Nat → Nat → Option (Nat × Nat)
+  | [], _, _ => none
+  | none :: t, p, c => pickLeg t (p + 1) c
+  | some op :: t, p, c =>
+    if c < op.vars.length then some (p, c) else pickLeg t (p + 1) (c - op.vars.length)
+
+/-- start selection: `(position, leg)`; two draws: the variable slot among all legs' variables,
+then the side -/
 def loopStart (slots : Slots) (rs : RS) : Option (Nat × Leg) × RS :=
+  let (a, rs) := rs.genRange (totalVars slots)
+  match pickLeg slots 0 a with
+  | none => (none, { rs with panicked := true })
+  | some (p, b) =>
+    let (c, rs) := rs.genStdBool
+    if rs.panicked || rs.short then (none, rs) else (some (p, ⟨b, !c⟩), rs)
+
+/-- the start selection BEFORE the fix of F22 (op uniformly, then relative variable, then side:
+three draws); not used by `loopUpdate`, kept to document the defect -/
+def loopStartOld (slots : Slots) (rs : RS) : Option (Nat × Leg) × RS :=
   let (a, rs) := rs.genRange (countOps slots)
   match nthOp slots a with
   | none => (none, { rs with panicked := true })
